@@ -274,14 +274,22 @@ def rule_d(res: Results, idx: Index) -> None:
     all_ops = set().union(*sets.values())
     n = 0
     for fi in m.funcs.values():
+        copy_sites: List[Tuple[ast.AST, str]] = []
         for c in walk_no_nested(fi.node):
-            if not (isinstance(c, ast.Call) and (call_name(c) or "") == "_copy_shape_dtype" and len(c.args) == 2):
-                continue
-            # node-output <- node-input copies only (outs[0], ins[0] / src)
-            du = defuse(fi.node)
-            a0 = du.closure(names_in(c.args[0]))
-            if not ({"outs", "out"} & a0 or any("out" in x for x in names_in(c.args[0]))):
-                continue
+            if isinstance(c, ast.Call) and (call_name(c) or "") == "_copy_shape_dtype" and len(c.args) == 2:
+                # node-output <- node-input copies only (outs[0], ins[0] / src)
+                du = defuse(fi.node)
+                a0 = du.closure(names_in(c.args[0]))
+                if {"outs", "out"} & a0 or any("out" in x for x in names_in(c.args[0])):
+                    copy_sites.append((c, src(c.args[1], 30)))
+            # a name->dtype map in which a node's output inherits the entry of its input: `M.setdefault(out, M[src])` / `M[out] = M[src]`
+            elif isinstance(c, ast.Call) and isinstance(c.func, ast.Attribute) and c.func.attr == "setdefault" and isinstance(c.func.value, ast.Name) and "type" in c.func.value.id.lower() and len(c.args) == 2 \
+                    and isinstance(c.args[1], ast.Subscript) and isinstance(c.args[1].value, ast.Name) and c.args[1].value.id == c.func.value.id:
+                copy_sites.append((c, f"{c.func.value.id}[{src(c.args[1].slice, 20)}]"))
+            elif isinstance(c, ast.Assign) and len(c.targets) == 1 and isinstance(c.targets[0], ast.Subscript) and isinstance(c.targets[0].value, ast.Name) and "type" in c.targets[0].value.id.lower() \
+                    and isinstance(c.value, ast.Subscript) and isinstance(c.value.value, ast.Name) and c.value.value.id == c.targets[0].value.id:
+                copy_sites.append((c, f"{c.targets[0].value.id}[{src(c.value.slice, 20)}]"))
+        for c, copy_label in copy_sites:
             universe = None
             excluded: Set[str] = set()
 
@@ -329,7 +337,7 @@ def rule_d(res: Results, idx: Index) -> None:
             n += 1
             bad = sorted(o for o in reach if _dtype_preserving(o) is False)
             unk = sorted(o for o in reach if _dtype_preserving(o) is None)
-            key = f"{OPT}::{fi.qualname}::dtype-copy::{src(c.args[1], 30)}"
+            key = f"{OPT}::{fi.qualname}::dtype-copy::{copy_label}"
             site = f"{OPT}:{c.lineno}"
             if bad:
                 res.violation("R-C08d", site, key, f"`{src(c, 50)}` stamps the input's element type on the output of {bad}: in the ONNX schema their output type differs from their first input's, so the refreshed annotation contradicts run time (only {sorted(excluded) or 'no operators'} take the shape-only branch)", fi.qualname)
